@@ -1225,10 +1225,16 @@ class CircuitTemplate(AbstractBaseTemplate):
                         out_map[key][var_key] = self._get_var_idx(var_key)
                         out_vars[var_key] = backend_key
 
+                else:
+                    raise PyRatesException(f"The requested output `{out}` (key `{key}`) does not match any variable of "
+                                           f"the network.")
+
         else:
 
             *out_nodes, out_op, out_var = outputs.split('/')
             target_nodes = self.get_nodes(out_nodes, var_identifier=(out_op, out_var))
+            if not target_nodes:
+                raise PyRatesException(f"The requested output `{outputs}` does not match any variable of the network.")
 
             # extract index for single output node
             for t in target_nodes:
